@@ -11,13 +11,86 @@ TECH = "bounded model checking of the real code: Kani 0.68 harnesses (kani::any 
 
 # property -> (level text, level note, design ref, technique suffix)
 CLAIMS = {
+    "C01": (
+        "Completeness is decided layer by layer on the real code: LM-OTS signer/verifier/public-key transcripts under recording hashers (same Q pre-image, same "
+        "digits a_i, signer chain i runs 0->a_i from x_i, verifier a_i->2^w-1 from y_i, key 0->2^w-1 from x_i), the signer's authentication-path rule for every leaf "
+        "of trees of height 5..25, the HSS signing structure for tall multi-level shapes over an LMS-layer contract with every counter of the lifetime symbolic "
+        "(roll-over included), and parser acceptance of everything a key with the maximum level count produces.",
+        "Layer composition (chain composability, LMS verify walk vs signer path) is argued on paper in DESIGN.md; LM-OTS instances n=16 (W8, W4) and n=32 (W8); "
+        "real SHA-256/SHAKE256 digests and end-to-end runs on real trees are outside (symbolic execution of one 4-leaf signing run exceeds an hour).",
+        "DESIGN.md section 3 C01", "Rec/RecSum transcript equality + LMS-layer contract stubs"),
+    "C02": (
+        "Structural half of RFC 8554 verification, for every input inside the shape bounds: hss::verify::verify on arbitrary parsed signature structures against "
+        "arbitrary public keys accepts only if level counts, all type codes and leaf ranges are consistent (digests are havoc so a missing check cannot hide behind a "
+        "hash mismatch), and the parsers map exact-shape byte strings to exactly the RFC fields at the RFC offsets and reject +-1 byte.",
+        "Shapes n=16/W8/H5, one and two levels; level counts concrete per harness instance; the hash-dependent half (the digests that decide acceptance are the RFC's) "
+        "is covered for LM-OTS by the C07 transcripts, the LMS tree walk is outside this round.",
+        "DESIGN.md section 3 C02", ""),
+    "C03": (
+        "One-step obligations on an arbitrary valid state instead of explored histories: the counter->leaf decomposition is the mixed-radix rule and injective for every "
+        "shape of 1..8 levels and every counter; one signing step hands the callback exactly counter+1 (or the wiped key), releases leaf indices that are the digits of "
+        "the input counter on every level, and child tree identity depends only on (parent seed, parent I, parent leaf).",
+        "Induction over the history is a paper step (DESIGN.md); HSS step over an LMS-layer contract; concurrency outside (Kani has none).",
+        "DESIGN.md section 3 C03", "LMS-layer contract stubs; Rec transcripts"),
+    "C04": (
+        "For every key byte string (malformed, wiped, truncated) no callback and no signature; when signing proper fails no callback; for usable keys of tall shapes "
+        "(every counter, both callback outcomes) exactly one callback with the complete successor and a signature iff it accepted; the in-memory SigningKey ends up with "
+        "exactly that successor.",
+        "Expansion / LMS layer replaced by contracts in the quick tier (listed as stubs in the evidence); real-code 4-leaf instances are thorough-tier only.",
+        "DESIGN.md section 3 C04", "contract stubs for the layers below hss_sign_core"),
+    "C05": (
+        "Accounting arithmetic exact for every shape of 1..8 levels and every counter (lifetime = leaves - counter, increment, exhaustion threshold), wipe on the last "
+        "leaf (counter 0, parameters 0xff, seed 0, same length) for every shape and seed, refusal of wiped keys, lifetime before/after one signature.",
+        "Total height <= 63 for the exact arithmetic; HSS step over the LMS-layer contract.", "DESIGN.md section 3 C05", ""),
     "C06": (
-        "Every byte string up to the stated caps, of every length, is pushed symbolically through the real parsers "
-        "and through hss_verify/VerifyingKey::verify; CBMC shows no panic, overflow, out-of-bounds index or unbounded "
-        "loop exists inside the bounds (unwinding assertions on), or returns a concrete byte string that is replayed natively.",
-        "Bounded: buffers up to the per-harness caps; digests are havoc (every hash behaviour included); "
-        "Winternitz chain loop summarised by the HashChain override in verify-level harnesses.",
+        "Every byte string up to the stated caps, of every length, is pushed symbolically through the real parsers; verify-level code runs on arbitrary parsed "
+        "structures; the level-count boundary is decided under a 2-level build. CBMC shows no panic, overflow, out-of-bounds index or unbounded loop inside the bounds.",
+        "Bounded: buffers up to the per-harness caps; digests havoc; Winternitz chain summarised by the HashChain override in verify-level harnesses.",
         "DESIGN.md section 3 C06", ""),
+    "C07": (
+        "Tables and lengths against the RFC formulas for all 12 (n,w) x 6 heights; serialisation layout of LMS public keys and signatures for arbitrary field contents; "
+        "LM-OTS signing content by transcript (Q pre-image I|q|0x8181|C|msg, chain i iterated a_i = coef(Q||Cksm(Q)) times with the Appendix-B shift, randomizer "
+        "derivation, default chain loop step layout with 16-bit chain index), authentication path = sibling rule for every leaf.",
+        "Deviating checksum shifts for three (n,w) pairs are reported under C12 (known findings); instances n=16/W8,W4 and n=32/W8.", "DESIGN.md section 3 C07", "Rec/RecSum transcripts"),
+    "C08": (
+        "Key blob layout / nibble packing / round trip for every parameter list (1..8 levels, all W x H), seed and counter; HSS public key layout; derivation transcripts "
+        "against the hash-sigs layout: top-seed hashing (three 55-byte queries), child seed/identifier, x_q[i], K = H(I|q|0x8080|y..), chain step layout.",
+        "Reference = my transcription of the hash-sigs layout (no reference binary in the sandbox); tree node hashing and real SHA/SHAKE wrappers outside this round.",
+        "DESIGN.md section 3 C08", "Rec/RecSum transcripts"),
+    "C09": (
+        "2-run purity under a deterministic keyed toy hash family: derivation units twice with unrelated work in between; HSS-level signing twice from the same key bytes "
+        "and once through the in-memory SigningKey (byte-identical signatures and successor keys); the aux MAC key depends on the seed.",
+        "HSS level over the LMS-layer contract; other threads/processes are outside (Kani models no concurrency).", "DESIGN.md section 3 C09", "2-safety harness"),
+    "C10": (
+        "Level selection / shrunk length for every buffer length; layout of a fresh buffer; the MAC written by key generation and the MAC checked before any read-back are "
+        "the same HMAC over exactly the level area with key H(0^20|0xfdfd|seed), compared over exactly n trailing bytes (odd and even cached levels; missing, short, long tail).",
+        "Transparency (same keys/signatures with and without aux) end to end is outside this round; instances n=16.", "DESIGN.md section 3 C10", "Rec transcripts"),
+    "C11": (
+        "sign / get_lifetime for every key byte string of every length (n=16 and n=32), every small auxiliary buffer through the read-back path: error or result, never "
+        "a panic, no callback on error paths.",
+        "Expansion replaced by a failing contract; keygen with over-long parameter lists is covered by the native replay only.", "DESIGN.md section 3 C11", ""),
+    "C12": (
+        "D1 coef = RFC coef (all byte strings, indices, w); D2 checksum bytes = be16(sum << ls) for all 8n digest bits; D3 table = Appendix-B formula; D4 checksum digits carry the "
+        "whole sum; two SMT side lemmas (z3 + cvc5) close domination-freeness. Exact for all 12 (n,w) pairs.",
+        "The modus-ponens chaining D1, D2, D4, (i), (ii) => domination-freeness is a paper step. Three known findings (ls of (24,1), (16,1), (16,2)).",
+        "DESIGN.md section 3 C12", "plus SMT-LIB lemmas discharged by z3 5.1 and cvc5 1.0"),
+    "C13": (
+        "Digit rule, injectivity, increment and lifetime arithmetic exact for every list of 1..8 levels over all heights and every counter (total height <= 63); "
+        "taller lists: no arithmetic failure, same digit rule, no early exhaustion.",
+        "One harness instance per level count (heights symbolic); quick tier covers 1..4 levels, thorough all 8.", "DESIGN.md section 3 C13", ""),
+    "C14": (
+        "Under each of several documented build configurations (levels 1/2/3, non-uniform per-level limits): generated capacities cover every admissible parameter list at every "
+        "level's worst case; key blobs keep the default layout; keys beyond the limits are refused without panic; parser accepts the maximum level count and rejects more.",
+        "Configurations: default, w8, l1w8h5, l2w8h5, l2mixed, l3mixed, l3w8h5; equality of signatures across configurations follows from the configuration-independent "
+        "references of C07/C08 (paper).", "DESIGN.md section 3 C14", "one harness build per HBS_LMS_* configuration"),
+    "C15": (
+        "Only the mechanism compiled without the feature gate is decided: fast_verify_eval(Q) = sum of all p Winternitz digits of Q||Cksm(Q) for every digest and all 12 (n,w), no panic.",
+        "Everything behind the fast_verify feature (trailer precondition, trailer-only mutation, leaf consumption, thread counts and interleavings, OS RNG) is outside: Kani 0.68 cannot "
+        "compile the feature's dependency graph and models neither threads nor randomness.", "DESIGN.md section 3 C15", ""),
+    "C16": (
+        "For Seed, SeedAndLmsTreeIdentifier, ReferenceImplPrivateKey, LmsPrivateKey, LmotsPrivateKey: after zeroize() and after the real drop glue every secret byte "
+        "(up to the container capacity, not only up to len) is zero, for every content; the exhausted key blob carries no seed byte.",
+        "Real zeroize code, only the empty asm barrier stubbed; copies the compiler may leave in registers/stack moves are not observable.", "DESIGN.md section 3 C16", ""),
 }
 
 NOT_YET = {}
